@@ -18,13 +18,13 @@ open VaxisModel.Lemmas.Input (WfSeq)
 
 abbrev SLabel := VaxisModel.Model.Startup.Label
 
-structure Good (p : Params) (st : St) : Prop where
+structure Good (p : Params) (v : Option (Int × Int)) (st : St) : Prop where
   ph : st.phase = .loop
   to : st.timedOut = false
   dr : st.sys.dropped = 0
   ql : st.sys.queue.length ≤ p.qcap
   nd : ∀ e ∈ st.sys.queue, isDA e = false
-  pg : st.probeGot = none
+  pg : st.probeGot = v
 
 theorem srun_append (p : Params) (o : Opts) : ∀ (ls1 ls2 : List SLabel) (a b : St),
     VaxisModel.Model.Startup.run p o a ls1 = some b → VaxisModel.Model.Startup.run p o a (ls1 ++ ls2) = VaxisModel.Model.Startup.run p o b ls2
@@ -52,8 +52,8 @@ theorem collectEv_some (o : Opts) (c : Caps) (tid aid : List Nat) (e : Event) (h
   | _ => exact ⟨_, rfl⟩
 
 /-- The loop of `New` receives one event that is not the DA1 notification. -/
-theorem recv_one (p : Params) (o : Opts) (st : St) (e : Event) (q : List Event) (g : Good p st) (hq : st.sys.queue = e :: q) :
-    ∃ st', VaxisModel.Model.Startup.next p o st .loopRecv = some (.ok st') ∧ st'.sys.queue = q ∧ st'.sys.pend = st.sys.pend ∧ Good p st' ∧
+theorem recv_one (p : Params) (o : Opts) (v : Option (Int × Int)) (st : St) (e : Event) (q : List Event) (g : Good p v st) (hq : st.sys.queue = e :: q) :
+    ∃ st', VaxisModel.Model.Startup.next p o st .loopRecv = some (.ok st') ∧ st'.sys.queue = q ∧ st'.sys.pend = st.sys.pend ∧ Good p v st' ∧
       st'.sys.cursorWaiting = st.sys.cursorWaiting ∧ st'.sys.clipWaiting = st.sys.clipWaiting := by
   have hnd : isDA e = false := g.nd e (by rw [hq]; simp)
   obtain ⟨⟨c, tid, aid⟩, hc⟩ := collectEv_some o st.sys.vs.caps st.termID st.appIDLast e hnd
@@ -69,30 +69,30 @@ def NoDAeff : Effect → Prop
   | _ => True
 
 /-- One pending effect is performed (the loop receiving first when the queue is full), staying `Good`. -/
-theorem eff_one (p : Params) (o : Opts) (hq : 0 < p.qcap) (hk : Kinds.safe p.kinds) (st : St) (e : Effect) (rest : List Effect)
-    (g : Good p st) (hp : st.sys.pend = e :: rest) (hn : NoDAeff e) :
-    ∃ ls st', inputsOf ls = [] ∧ VaxisModel.Model.Startup.run p o st ls = some st' ∧ st'.sys.pend = rest ∧ Good p st' := by
+theorem eff_one (p : Params) (o : Opts) (v : Option (Int × Int)) (hq : 0 < p.qcap) (hk : Kinds.safe p.kinds) (st : St) (e : Effect) (rest : List Effect)
+    (g : Good p v st) (hp : st.sys.pend = e :: rest) (hn : NoDAeff e) :
+    ∃ ls st', inputsOf ls = [] ∧ VaxisModel.Model.Startup.run p o st ls = some st' ∧ st'.sys.pend = rest ∧ Good p v st' := by
   obtain ⟨hcp, hsd, hco, hfg, hbg, hcl⟩ := hk
   -- make room in the queue first if necessary
-  have room : ∃ ls0 st0, inputsOf ls0 = [] ∧ VaxisModel.Model.Startup.run p o st ls0 = some st0 ∧ st0.sys.pend = e :: rest ∧ Good p st0 ∧
+  have room : ∃ ls0 st0, inputsOf ls0 = [] ∧ VaxisModel.Model.Startup.run p o st ls0 = some st0 ∧ st0.sys.pend = e :: rest ∧ Good p v st0 ∧
       st0.sys.queue.length < p.qcap := by
     by_cases hlt : st.sys.queue.length < p.qcap
     · exact ⟨[], st, rfl, rfl, hp, g, hlt⟩
     · have hne : st.sys.queue ≠ [] := by
         intro h; rw [h] at hlt; simp at hlt; omega
       obtain ⟨q0, qt, hqe⟩ := List.exists_cons_of_ne_nil hne
-      obtain ⟨st0, h0, hq0, hp0, g0, _, _⟩ := recv_one p o st q0 qt g hqe
+      obtain ⟨st0, h0, hq0, hp0, g0, _, _⟩ := recv_one p o v st q0 qt g hqe
       refine ⟨[.loopRecv], st0, rfl, by simp [VaxisModel.Model.Startup.run, h0], by rw [hp0, hp], g0, ?_⟩
       have := g.ql; rw [hqe] at this; rw [hq0]; simp at this; omega
   obtain ⟨ls0, st0, hi0, hr0, hp0, g0, hlt0⟩ := room
-  suffices h : ∃ l st', (∀ s, l ≠ .input s) ∧ VaxisModel.Model.Startup.next p o st0 l = some (.ok st') ∧ st'.sys.pend = rest ∧ Good p st' by
+  suffices h : ∃ l st', (∀ s, l ≠ .input s) ∧ VaxisModel.Model.Startup.next p o st0 l = some (.ok st') ∧ st'.sys.pend = rest ∧ Good p v st' by
     obtain ⟨l, st', hl, hn', hp', g'⟩ := h
     refine ⟨ls0 ++ [l], st', ?_, ?_, hp', g'⟩
     · rw [inputsOf_append, hi0]; cases l <;> simp [inputsOf] at hl ⊢
     · rw [srun_append p o ls0 [l] st st0 hr0]; simp [VaxisModel.Model.Startup.run, hn']
   have mk : ∀ sys', stepEffect p st0.sys e rest = some sys' → sys'.pend = rest → sys'.dropped = st0.sys.dropped →
       sys'.queue.length ≤ p.qcap → (∀ x ∈ sys'.queue, isDA x = false) →
-      ∃ l st', (∀ s, l ≠ .input s) ∧ VaxisModel.Model.Startup.next p o st0 l = some (.ok st') ∧ st'.sys.pend = rest ∧ Good p st' := by
+      ∃ l st', (∀ s, l ≠ .input s) ∧ VaxisModel.Model.Startup.next p o st0 l = some (.ok st') ∧ st'.sys.pend = rest ∧ Good p v st' := by
     intro sys' hs hpe hdr hql hnd
     refine ⟨.step, { st0 with sys := sys' }, ?_, ?_, hpe, ⟨g0.ph, g0.to, by rw [hdr]; exact g0.dr, hql, hnd, g0.pg⟩⟩
     · intro s h; cases h
@@ -190,15 +190,15 @@ theorem eff_one (p : Params) (o : Opts) (hq : 0 < p.qcap) (hk : Kinds.safe p.kin
       · simp [VaxisModel.Model.Startup.next, liftSys, VaxisModel.Model.InputLoop.next, hp0, hcl]
 
 /-- All pending effects up to a given tail are performed. -/
-theorem settle_to (p : Params) (o : Opts) (hq : 0 < p.qcap) (hk : Kinds.safe p.kinds) (tail : List Effect) :
-    ∀ (pre : List Effect) (st : St), Good p st → st.sys.pend = pre ++ tail → (∀ e ∈ pre, NoDAeff e) →
-      ∃ ls st', inputsOf ls = [] ∧ VaxisModel.Model.Startup.run p o st ls = some st' ∧ st'.sys.pend = tail ∧ Good p st' := by
+theorem settle_to (p : Params) (o : Opts) (v : Option (Int × Int)) (hq : 0 < p.qcap) (hk : Kinds.safe p.kinds) (tail : List Effect) :
+    ∀ (pre : List Effect) (st : St), Good p v st → st.sys.pend = pre ++ tail → (∀ e ∈ pre, NoDAeff e) →
+      ∃ ls st', inputsOf ls = [] ∧ VaxisModel.Model.Startup.run p o st ls = some st' ∧ st'.sys.pend = tail ∧ Good p v st' := by
   intro pre
   induction pre with
   | nil => intro st g hp _; exact ⟨[], st, rfl, rfl, by simpa using hp, g⟩
   | cons e pre ih =>
     intro st g hp hn
-    obtain ⟨ls1, st1, hi1, hr1, hp1, g1⟩ := eff_one p o hq hk st e (pre ++ tail) g (by simpa using hp) (hn e (by simp))
+    obtain ⟨ls1, st1, hi1, hr1, hp1, g1⟩ := eff_one p o v hq hk st e (pre ++ tail) g (by simpa using hp) (hn e (by simp))
     obtain ⟨ls2, st2, hi2, hr2, hp2, g2⟩ := ih st1 g1 hp1 (fun x hx => hn x (by simp [hx]))
     exact ⟨ls1 ++ ls2, st2, by rw [inputsOf_append, hi1, hi2]; rfl, by rw [srun_append p o ls1 ls2 st st1 hr1, hr2], hp2, g2⟩
 
@@ -234,26 +234,26 @@ theorem noDA_effs (b64 : List Nat → Option (List Nat)) (vs vs' : VState) (s : 
   | _ => trivial
 
 /-- The goroutine, idle, accepts a well-formed sequence. -/
-theorem input_ok (p : Params) (o : Opts) (st : St) (s : Seq) (g : Good p st) (hp : st.sys.pend = []) (hw : WfSeq s) :
+theorem input_ok (p : Params) (o : Opts) (v : Option (Int × Int)) (st : St) (s : Seq) (g : Good p v st) (hp : st.sys.pend = []) (hw : WfSeq s) :
     ∃ st' vs' effs, handle p.b64 st.sys.vs s = .ok (vs', effs) ∧ VaxisModel.Model.Startup.next p o st (.input s) = some (.ok st') ∧
-      st'.sys.pend = effs ∧ Good p st' := by
+      st'.sys.pend = effs ∧ Good p v st' := by
   obtain ⟨⟨vs', effs⟩, hh⟩ := (VaxisModel.Lemmas.Input.ok_iff _).mpr (VaxisModel.Lemmas.Input.handle_ok p.b64 st.sys.vs s hw)
   refine ⟨{ st with sys := { st.sys with vs := vs', pend := effs }, ins := st.ins ++ [s] }, vs', effs, hh, ?_, rfl,
     ⟨g.ph, g.to, g.dr, g.ql, g.nd, g.pg⟩⟩
   simp [VaxisModel.Model.Startup.next, VaxisModel.Model.InputLoop.next, hp, hh]
 
 /-- A list of well-formed sequences without a DA1 reply is handled completely. -/
-theorem feed_all (p : Params) (o : Opts) (hq : 0 < p.qcap) (hk : Kinds.safe p.kinds) :
-    ∀ (A : List Seq) (st : St), Good p st → st.sys.pend = [] → (∀ s ∈ A, WfSeq s) → (∀ s ∈ A, isDA1 s = false) →
-      ∃ ls st', inputsOf ls = A ∧ VaxisModel.Model.Startup.run p o st ls = some st' ∧ st'.sys.pend = [] ∧ Good p st' := by
+theorem feed_all (p : Params) (o : Opts) (v : Option (Int × Int)) (hq : 0 < p.qcap) (hk : Kinds.safe p.kinds) :
+    ∀ (A : List Seq) (st : St), Good p v st → st.sys.pend = [] → (∀ s ∈ A, WfSeq s) → (∀ s ∈ A, isDA1 s = false) →
+      ∃ ls st', inputsOf ls = A ∧ VaxisModel.Model.Startup.run p o st ls = some st' ∧ st'.sys.pend = [] ∧ Good p v st' := by
   intro A
   induction A with
   | nil => intro st g hp _ _; exact ⟨[], st, rfl, rfl, hp, g⟩
   | cons s A ih =>
     intro st g hp hw hd
-    obtain ⟨st1, vs', effs, hh, hn1, hp1, g1⟩ := input_ok p o st s g hp (hw s (by simp))
+    obtain ⟨st1, vs', effs, hh, hn1, hp1, g1⟩ := input_ok p o v st s g hp (hw s (by simp))
     have hno := noDA_effs p.b64 st.sys.vs vs' s effs hh (hd s (by simp))
-    obtain ⟨ls2, st2, hi2, hr2, hp2, g2⟩ := settle_to p o hq hk [] effs st1 g1 (by simpa using hp1) hno
+    obtain ⟨ls2, st2, hi2, hr2, hp2, g2⟩ := settle_to p o v hq hk [] effs st1 g1 (by simpa using hp1) hno
     obtain ⟨ls3, st3, hi3, hr3, hp3, g3⟩ := ih st2 g2 hp2 (fun x hx => hw x (by simp [hx])) (fun x hx => hd x (by simp [hx]))
     refine ⟨.input s :: (ls2 ++ ls3), st3, ?_, ?_, hp3, g3⟩
     · simp [inputsOf, inputsOf_append, hi2, hi3]
@@ -286,57 +286,89 @@ theorem drain_to_DA (p : Params) (o : Opts) :
       simp [VaxisModel.Model.Startup.next, hph, hq', hc]
     rw [this]; exact hr
 
-/-- **The start-up can always complete.** -/
-theorem startup_completes (p : Params) (o : Opts) (hq : 0 < p.qcap) (hk : Kinds.safe p.kinds)
+/-- From any state in which `New` is in its loop and the goroutine idle, a list of sequences
+ending with the first DA1 reply is handled completely and `New` gets past `applyQuirks`. -/
+theorem completes_from (p : Params) (o : Opts) (v : Option (Int × Int)) (hq : 0 < p.qcap) (hk : Kinds.safe p.kinds)
+    (st0 : St) (g0 : Good p v st0) (hp0 : st0.sys.pend = [])
     (A : List Seq) (d : Seq) (hw : ∀ s ∈ A ++ [d], WfSeq s) (hA : ∀ s ∈ A, isDA1 s = false) (hd : isDA1 d = true) :
-    ∃ ls st, inputsOf ls = A ++ [d] ∧ VaxisModel.Model.Startup.run p o (St.init o) ls = some st ∧
-      st.phase = .ready ∧ st.timedOut = false ∧ st.sys.dropped = 0 ∧ st.probeGot = none := by
-  -- the probe times out: `New` enters its loop
-  let st0 : St := { St.init o with sys := { (St.init o).sys with vs := { (St.init o).sys.vs with reqCursorPos := false }, cursorWaiting := false },
-                                   phase := .loop }
-  have h0 : VaxisModel.Model.Startup.next p o (St.init o) .probeTimeout = some (.ok st0) := by
-    simp [VaxisModel.Model.Startup.next, St.init, st0]
-  have g0 : Good p st0 := by
-    refine ⟨rfl, rfl, rfl, ?_, ?_, rfl⟩
-    · simp only [st0, St.init]; split <;> simp <;> omega
-    · intro e he; simp only [st0, St.init] at he; split at he <;> simp at he; subst he; rfl
-  obtain ⟨ls1, st1, hi1, hr1, hp1, g1⟩ := feed_all p o hq hk A st0 g0 rfl (fun s hs => hw s (by simp [hs])) hA
+    ∃ ls st, inputsOf ls = A ++ [d] ∧ VaxisModel.Model.Startup.run p o st0 ls = some st ∧
+      st.phase = .ready ∧ st.timedOut = false ∧ st.sys.dropped = 0 ∧ st.probeGot = v := by
+  obtain ⟨ls1, st1, hi1, hr1, hp1, g1⟩ := feed_all p o v hq hk A st0 g0 hp0 (fun s hs => hw s (by simp [hs])) hA
   -- the DA1 reply
-  obtain ⟨st2, vs', effs, hh, hn2, hp2, g2⟩ := input_ok p o st1 d g1 hp1 (hw d (by simp))
+  obtain ⟨st2, vs', effs, hh, hn2, hp2, g2⟩ := input_ok p o v st1 d g1 hp1 (hw d (by simp))
   obtain ⟨ps, rfl⟩ := isDA1_shape d hd
   obtain ⟨n, hn⟩ := da1_effs p.b64 st1.sys.vs vs' ps effs hh
   have hsix : ∀ e ∈ List.replicate n (Effect.postB (note .capabilitySixel)), NoDAeff e := by
     intro e he; rw [List.mem_replicate] at he; rw [he.2]; rfl
-  obtain ⟨ls3, st3, hi3, hr3, hp3, g3⟩ := settle_to p o hq hk [.postB DA] _ st2 g2 (by rw [hp2, hn]) hsix
+  obtain ⟨ls3, st3, hi3, hr3, hp3, g3⟩ := settle_to p o v hq hk [.postB DA] _ st2 g2 (by rw [hp2, hn]) hsix
   -- post the DA1 notification (the loop receiving once first if the queue is full), then drain
   have post : ∃ ls4 st4, inputsOf ls4 = [] ∧ VaxisModel.Model.Startup.run p o st3 ls4 = some st4 ∧ st4.phase = .loop ∧ st4.timedOut = false ∧
-      st4.sys.dropped = 0 ∧ st4.probeGot = none ∧ ∃ q, st4.sys.queue = q ++ [DA] ∧ ∀ e ∈ q, isDA e = false := by
-    have room : ∃ ls0 st0', inputsOf ls0 = [] ∧ VaxisModel.Model.Startup.run p o st3 ls0 = some st0' ∧ st0'.sys.pend = [.postB DA] ∧ Good p st0' ∧
+      st4.sys.dropped = 0 ∧ st4.probeGot = v ∧ ∃ q, st4.sys.queue = q ++ [DA] ∧ ∀ e ∈ q, isDA e = false := by
+    have room : ∃ ls0 st0', inputsOf ls0 = [] ∧ VaxisModel.Model.Startup.run p o st3 ls0 = some st0' ∧ st0'.sys.pend = [.postB DA] ∧ Good p v st0' ∧
         st0'.sys.queue.length < p.qcap := by
       by_cases hlt : st3.sys.queue.length < p.qcap
       · exact ⟨[], st3, rfl, rfl, hp3, g3, hlt⟩
       · have hne : st3.sys.queue ≠ [] := by
           intro h; rw [h] at hlt; simp at hlt; omega
         obtain ⟨q0, qt, hqe⟩ := List.exists_cons_of_ne_nil hne
-        obtain ⟨st0', h0', hq0, hp0, g0', _, _⟩ := recv_one p o st3 q0 qt g3 hqe
-        refine ⟨[.loopRecv], st0', rfl, by simp [VaxisModel.Model.Startup.run, h0'], by rw [hp0, hp3], g0', ?_⟩
+        obtain ⟨st0', h0', hq0, hp0', g0', _, _⟩ := recv_one p o v st3 q0 qt g3 hqe
+        refine ⟨[.loopRecv], st0', rfl, by simp [VaxisModel.Model.Startup.run, h0'], by rw [hp0', hp3], g0', ?_⟩
         have := g3.ql; rw [hqe] at this; rw [hq0]; simp at this; omega
-    obtain ⟨ls0, st0', hi0, hr0, hp0, g0', hlt0⟩ := room
+    obtain ⟨ls0, st0', hi0, hr0, hp0', g0', hlt0⟩ := room
     refine ⟨ls0 ++ [.step], { st0' with sys := { st0'.sys with pend := [], queue := st0'.sys.queue ++ [DA] } }, ?_, ?_, g0'.ph, g0'.to, g0'.dr, g0'.pg,
       st0'.sys.queue, rfl, g0'.nd⟩
     · rw [inputsOf_append, hi0]; rfl
     · rw [srun_append p o ls0 [.step] st3 st0' hr0]
-      simp [VaxisModel.Model.Startup.run, VaxisModel.Model.Startup.next, liftSys, VaxisModel.Model.InputLoop.next, hp0, stepEffect, hlt0]
+      simp [VaxisModel.Model.Startup.run, VaxisModel.Model.Startup.next, liftSys, VaxisModel.Model.InputLoop.next, hp0', stepEffect, hlt0]
   obtain ⟨ls4, st4, hi4, hr4, hph4, hto4, hdr4, hpg4, q, hq4, hnd4⟩ := post
   obtain ⟨ls5, st5, hi5, hr5, hph5, hto5, hdr5, hpg5⟩ := drain_to_DA p o q st4 hph4 hto4 hdr4 hq4 hnd4
-  refine ⟨.probeTimeout :: (ls1 ++ (.input (.csi [63] ps 99) :: (ls3 ++ (ls4 ++ (ls5 ++ [.quirks]))))),
-    { st5 with sys := setCaps st5.sys (applyQuirks o st5.termID st5.sys.vs.caps), phase := .ready }, ?_, ?_, rfl, hto5, hdr5, by rw [← hpg4]; exact hpg5⟩
+  refine ⟨ls1 ++ (.input (.csi [63] ps 99) :: (ls3 ++ (ls4 ++ (ls5 ++ [.quirks])))),
+    { st5 with sys := setCaps st5.sys (applyQuirks o st5.termID st5.sys.vs.caps), phase := .ready }, ?_, ?_, rfl, hto5, hdr5,
+    by rw [← hpg4]; exact hpg5⟩
   · simp [inputsOf, inputsOf_append, hi1, hi3, hi4, hi5]
-  · simp only [VaxisModel.Model.Startup.run, h0]
-    rw [srun_append p o ls1 _ st0 st1 hr1]
+  · rw [srun_append p o ls1 _ st0 st1 hr1]
     simp only [VaxisModel.Model.Startup.run, hn2]
     rw [srun_append p o ls3 _ st2 st3 hr3, srun_append p o ls4 _ st3 st4 hr4, srun_append p o ls5 _ st4 st5 hr5]
     simp [VaxisModel.Model.Startup.run, VaxisModel.Model.Startup.next, hph5]
+
+/-- **The start-up can always complete** (the probe times out). -/
+theorem startup_completes (p : Params) (o : Opts) (hq : 0 < p.qcap) (hk : Kinds.safe p.kinds)
+    (A : List Seq) (d : Seq) (hw : ∀ s ∈ A ++ [d], WfSeq s) (hA : ∀ s ∈ A, isDA1 s = false) (hd : isDA1 d = true) :
+    ∃ ls st, inputsOf ls = A ++ [d] ∧ VaxisModel.Model.Startup.run p o (St.init o) ls = some st ∧
+      st.phase = .ready ∧ st.timedOut = false ∧ st.sys.dropped = 0 ∧ st.probeGot = none := by
+  let st0 : St := { St.init o with sys := { (St.init o).sys with vs := { (St.init o).sys.vs with reqCursorPos := false }, cursorWaiting := false },
+                                   phase := .loop }
+  have h0 : VaxisModel.Model.Startup.next p o (St.init o) .probeTimeout = some (.ok st0) := by
+    simp [VaxisModel.Model.Startup.next, St.init, st0]
+  have g0 : Good p none st0 := by
+    refine ⟨rfl, rfl, rfl, ?_, ?_, rfl⟩
+    · simp only [st0, St.init]; split <;> simp <;> omega
+    · intro e he; simp only [st0, St.init] at he; split at he <;> simp at he; subst he; rfl
+  obtain ⟨ls, st, hi, hr, h⟩ := completes_from p o none hq hk st0 g0 rfl A d hw hA hd
+  exact ⟨.probeTimeout :: ls, st, by simp [inputsOf, hi], by simp only [VaxisModel.Model.Startup.run, h0]; exact hr, h⟩
+
+/-- **… and with the probe answered**: the cursor-position report `CSI r;c R` arrives first, is
+handed to the `CursorPosition()` of the probe, and the start-up completes as above. -/
+theorem startup_completes_answered (p : Params) (o : Opts) (hq : 0 < p.qcap) (hk : Kinds.safe p.kinds)
+    (hcap : p.cursorCap = 1) (hnb : p.kinds.cursorPos = .nonblocking) (r c : Int)
+    (A : List Seq) (d : Seq) (hw : ∀ s ∈ A ++ [d], WfSeq s) (hA : ∀ s ∈ A, isDA1 s = false) (hd : isDA1 d = true) :
+    ∃ ls st, inputsOf ls = .csi [] [[r], [c]] 82 :: (A ++ [d]) ∧ VaxisModel.Model.Startup.run p o (St.init o) ls = some st ∧
+      st.phase = .ready ∧ st.timedOut = false ∧ st.sys.dropped = 0 ∧ st.probeGot = some (r, c) := by
+  let caps0 : Caps := if wrap64 (c - 1) == 1 then { ({} : Caps) with explicitWidth := true } else {}
+  let st0 : St :=
+    { sys := { vs := { reqCursorPos := false, caps := caps0 }, cursorWaiting := false,
+               queue := if o.colorterm then [.internal .truecolor] else [] },
+      phase := .loop, probeGot := some (r, c), ins := [.csi [] [[r], [c]] 82] }
+  have h0 : VaxisModel.Model.Startup.run p o (St.init o) [.input (.csi [] [[r], [c]] 82), .step, .probeRecv] = some st0 := by
+    simp [VaxisModel.Model.Startup.run, VaxisModel.Model.Startup.next, VaxisModel.Model.InputLoop.next, St.init, liftSys,
+      handle, handleCSI, ch, idx2, idx, bind, Except.bind, pure, Except.pure, stepEffect, hcap, hnb, send1, setCaps, st0, caps0]
+  have g0 : Good p (some (r, c)) st0 := by
+    refine ⟨rfl, rfl, rfl, ?_, ?_, rfl⟩
+    · simp only [st0]; split <;> simp <;> omega
+    · intro e he; simp only [st0] at he; split at he <;> simp at he; subst he; rfl
+  obtain ⟨ls, st, hi, hr, h⟩ := completes_from p o (some (r, c)) hq hk st0 g0 rfl A d hw hA hd
+  refine ⟨[.input (.csi [] [[r], [c]] 82), .step, .probeRecv] ++ ls, st, by simp [inputsOf, inputsOf_append, hi], ?_, h⟩
+  rw [srun_append p o _ ls (St.init o) st0 h0]; exact hr
 
 /-- The split of an input list at its first DA1 reply is unique. -/
 theorem split_unique : ∀ (A A' B : List Seq) (d d' : Seq), A ++ [d] = A' ++ d' :: B →
